@@ -27,7 +27,18 @@ class DType:
         self.handle = None
         self.capacity = None       # string types
         self.overlapped = False    # BOOL members alias bits of visible members (module-defined types)
+        self.bare_name = False     # predefined types of newer firmware: the template's first string is the bare type name (no ";n...")
         self._desc = None
+
+    @property
+    def predefined(self):
+        """template instance id outside the user range 0x100..0xEFF (TIMER, COUNTER, CONTROL, ... and module-defined types)"""
+        return self.template_id is not None and not 0x100 <= self.template_id <= 0xEFF
+
+    def is_hidden(self, m):
+        """not user-visible: the hidden BOOL hosts of UDTs (ZZZZZZZZZZ...), system members (__...), and the status word
+        `CTL` / `Control` of predefined types whose bits the visible BOOL members (EN, TT, DN, ...) alias"""
+        return m.name.startswith(HIDDEN_PREFIXES) or (self.predefined and m.name in ("CTL", "Control"))
 
     @property
     def is_struct(self):
@@ -56,14 +67,14 @@ class DType:
                     if m.array_len:
                         md = ("array", m.array_len, md)
                     members.append((m.name, md, m.offset))
-                if m.name.startswith(HIDDEN_PREFIXES):
+                if self.is_hidden(m):
                     private.add(m.name)
             d = ("udt", self.size, tuple(members), tuple(bits), frozenset(private))
         self._desc = d
         return d
 
     def visible_members(self):
-        return [m for m in self.members if not m.name.startswith(HIDDEN_PREFIXES)]
+        return [m for m in self.members if not self.is_hidden(m)]
 
     def member(self, name):
         for m in self.members:
@@ -86,7 +97,10 @@ class DType:
                 if m.array_len:
                     typ |= 0x2000
             out += info.to_bytes(2, "little") + typ.to_bytes(2, "little") + m.offset.to_bytes(4, "little")
-        out += f"{self.name};n{self.handle:X}".encode("ascii") + b"\x00"
+        if self.bare_name and self.predefined:
+            out += self.name.encode("ascii") + b"\x00"
+        else:
+            out += f"{self.name};n{self.handle:X}".encode("ascii") + b"\x00"
         for m in self.members:
             out += m.name.encode("ascii") + b"\x00"
         return out
@@ -257,8 +271,18 @@ def make_udt(prj, rng, name, pool, used_ids, depth, max_members=12):
     host, host_bits, host_count = None, 0, 0
     # "CTL" / "Control" are ordinary, visible member names in a user-defined type (the library hides them only in predefined
     # types, which are not generated with these names - see ASSUMPTIONS of C05); paired with the first/last user template id
-    predefined = rng.random() < 0.08
+    predefined = rng.random() < 0.10
     ctl_at = rng.randrange(n) if (not predefined and rng.random() < 0.12) else -1
+    # a predefined type shaped like the real ones (TIMER, COUNTER, CONTROL ...): a status word `CTL` / `Control` at offset 0 that is
+    # not user-visible, whose bits 31, 30, 29 ... the visible BOOL members alias
+    ctl_bits = None
+    if predefined and rng.random() < 0.6:
+        cname = rng.choice(["CTL", "Control"])
+        used.add(cname.lower())
+        members.append(Member(cname, ATOM_TYPES["DINT"], 0))
+        off = 4
+        ctl_bits = 31
+        t.bare_name = prj.fw_major >= 32 and rng.random() < 0.5
     i = 0
     while i < n:
         r = rng.random()
@@ -266,7 +290,10 @@ def make_udt(prj, rng, name, pool, used_ids, depth, max_members=12):
         if i == ctl_at:
             mname = rng.choice(["CTL", "Control"])
             used.add(mname)
-        if r < 0.28:  # BOOL member on a hidden host
+        if r < (0.5 if ctl_bits is not None else 0.28) and ctl_bits is not None and ctl_bits >= 32 - rng.choice([3, 6, 11, 32]):
+            members.append(Member(mname, ATOM_TYPES["BOOL"], ctl_bits // 8, bit=ctl_bits % 8))
+            ctl_bits -= 1
+        elif r < 0.28:  # BOOL member on a hidden host
             if host is None or host_bits == 8:
                 hname = f"ZZZZZZZZZZ{name[:12]}{host_count}"
                 host = Member(hname, ATOM_TYPES["SINT"], off)
@@ -294,6 +321,8 @@ def make_udt(prj, rng, name, pool, used_ids, depth, max_members=12):
             members.append(Member(mname, dt, off, array_len=arr))
             off += dt.size * (arr or 1)
         i += 1
+    if ctl_bits == 31:  # the status word hosts at least one visible BOOL: that is what makes it an internal host member
+        members.append(Member(_name(rng, used, rng.choice([2, 2, 3, 6])), ATOM_TYPES["BOOL"], 3, bit=7))
     t.members = members
     al = t.align()
     t.size = max(4, (off + al - 1) // al * al)
@@ -614,7 +643,10 @@ def redefine_type(prj, rng):
     scratch = Project()
     used = {"template": set(), "handle": {x.handle for x in prj.types.values()}, "instance": set()}
     pool = [x for x in prj.types.values() if x.kind == "string" and x.size <= 200]
-    new = make_udt(scratch, rng, t.name, pool, used, 1, max_members=rng.choice([2, 5, 9]))
+    while True:
+        new = make_udt(scratch, rng, t.name, pool, used, 1, max_members=rng.choice([2, 5, 9]))
+        if not new.predefined:  # the new member list is that of an ordinary UDT (no status-word form)
+            break
     if not 0x100 <= t.template_id <= 0xEFF:
         # the type keeps its (predefined-range) template id: "CTL"/"Control" members of predefined types are hidden by design
         # and are not generated (ASSUMPTIONS of C05)
